@@ -13,6 +13,8 @@ ROWDEC = ["upcean", "ean13", "ean8", "upca", "upce", "code39", "code39c", "code3
 OWN = [["qr", "multiqr", "multiqr.multi"], ["dm"], ["ean13", "upcean"], ["ean8", "upcean"], ["upca", "upcean", "ean13"],
        ["upce", "upcean"], ["code39", "code39c", "code39x", "code39x"], ["code93"], ["code128"], ["itf"], ["codabar"]]
 DM_SIZES = [8, 10, 12, 14, 16, 18, 20, 22, 24, 26, 32, 36, 40, 44, 48, 52, 64, 72, 80, 88, 96, 104, 120, 132, 144]
+OD_APIS = {"od.code93": ["code93"], "od.code39": ["code39", "code39x"], "od.code39k": ["code39c", "code39x"],
+           "od.code128": ["code128"], "od.codabar": ["codabar"]}
 EXPECTED_WHY = {  # every deciding branch of the reference automata must be reached by the TLC-generated streams
     "qr.end-of-data", "qr.terminator", "qr.reserved-mode", "qr.structured-append-truncated", "qr.eci-truncated",
     "qr.eci-unsupported", "qr.eci-designator-form", "qr.count-truncated", "qr.hanzi-truncated", "qr.numeric",
@@ -22,7 +24,8 @@ EXPECTED_WHY = {  # every deciding branch of the reference automata must be reac
     "dm.c40-shift-value-beyond-set", "dm.x12-pair-0", "dm.x12-value", "dm.base256-latch-at-end",
     "dm.base256-length-truncated", "dm.base256-truncated",
     "az.end-of-data", "az.binary-cut-by-end-of-data", "az.control-code-inside-shift", "az.flg7", "az.eci-digit",
-    "az.eci-unsupported", "az.eci-cut-by-end-of-data"}
+    "az.eci-unsupported", "az.eci-cut-by-end-of-data",
+    "od.code93", "od.code39", "od.code39k", "od.code128", "od.codabar"}
 
 
 def E(op, api, a=(), b=(), h=()):
@@ -401,7 +404,8 @@ def judge(ctx, inputs, label, meta=None, watchdog_ms=20000, reproduce=True):
         else:
             ctx.count_case((o["op"], o["api"], tuple(o["a"]), tuple(o["b"][:64]), tuple(o["h"])))
     if skipped:
-        ctx.note("%s: %d inputs skipped (the writer refused the seeded content; no call of a reader took place)" % (label, skipped))
+        ctx.note("%s: %d inputs not run and not judged (the writer refused the seeded content, or the driver process was "
+                 "saturated by hanging calls)" % (label, skipped))
     groups = collections.OrderedDict()
     for gi, ent in bad:
         o = obs[gi]
@@ -438,12 +442,21 @@ def sample_of(o):
 def run(ctx):
     rng = random.Random(ctx.seed * 65537 + (6 if ctx.quick else 66))
     cases = tlc_part(ctx)
-    gen_inputs = [E(c["op"], c["api"], c["a"], c["b"], c["h"]) for c in cases]
-    obs = judge(ctx, gen_inputs, "TLC-generated stream")
+    gen_inputs, gen_meta = [], []
+    for c in cases:
+        if c["op"] == "runs":       # a 1-D symbol: read as an image and as a pixel row by every reader variant of the symbology
+            for api in OD_APIS[c["fam"]]:
+                for mode, h in ((0, []), (1, [3, 4] if api in ("code128", "codabar") else [])):
+                    gen_inputs.append(E("runs", api, c["a"][:3] + [mode], c["b"], h))
+                    gen_meta.append(c)
+        else:
+            gen_inputs.append(E(c["op"], c["api"], c["a"], c["b"], c["h"]))
+            gen_meta.append(c)
+    obs = judge(ctx, gen_inputs, "TLC-generated input")
     cls = collections.Counter(c["cls"] for c in cases)
     ctx.extra["generated_classes"] = dict(cls)
     for want in ("format", "ok", "any"):
-        for c, o in zip(cases, obs):
+        for c, o in zip(gen_meta, obs):
             if c["cls"] == want and len(c["b"]) >= 3 and not o["panic"]:
                 ctx.sample(dict(kind="TLC-generated %s stream, reference class %s (%s)" % (c["fam"], c["cls"], c["why"]), event=sample_of(o)))
                 break
